@@ -65,18 +65,20 @@ Section LoopSpec.
           -- inversion H; subst. repeat split; auto; try lia. nilpre.
   Qed.
 
-  (* an invariant of single writes is an invariant of the loop *)
-  Lemma write_loop_inv (inv : W -> Prop) :
-    (forall st buf r st', buf <> [] -> inv st -> write st buf = (r, st') -> inv st') ->
-    forall fuel st buf r st' rest, inv st -> write_loop write fuel st buf = (r, st', rest) -> inv st'.
+  (* an invariant of single writes is an invariant of the loop; P = a property of the buffers
+     handed to write that survives taking a suffix *)
+  Lemma write_loop_inv (inv : W -> Prop) (P : list N -> Prop) :
+    (forall n buf, P buf -> P (skipn n buf)) ->
+    (forall st buf r st', buf <> [] -> P buf -> inv st -> write st buf = (r, st') -> inv st') ->
+    forall fuel st buf r st' rest, P buf -> inv st -> write_loop write fuel st buf = (r, st', rest) -> inv st'.
   Proof.
-    intros Hinv. induction fuel as [|f IH]; intros st buf r st' rest Hi H.
+    intros HP Hinv. induction fuel as [|f IH]; intros st buf r st' rest Hp Hi H.
     - destruct buf; cbn in H; inversion H; subst; auto.
     - destruct buf as [|b buf]; [cbn in H; inversion H; subst; auto|].
       cbn [write_loop] in H. destruct (write st (b :: buf)) as [r0 st1] eqn:E.
       apply Hinv in E; auto; [|discriminate].
       destruct r0 as [[|m]|k| |]; try (inversion H; subst; auto; fail).
-      + destruct (S m <=? length (b :: buf)); [eapply IH; eauto|inversion H; subst; auto].
+      + destruct (S m <=? length (b :: buf)); [eapply IH; [| |exact H]; auto|inversion H; subst; auto].
       + destruct (is_interrupted k); [eapply IH; eauto|inversion H; subst; auto].
   Qed.
 
@@ -416,11 +418,41 @@ Definition ok_or_err (s : iores unit) : Prop :=
 Lemma len_app {A} (a b : list A) : len (a ++ b) = (len a + len b)%N.
 Proof. unfold len. rewrite app_length. lia. Qed.
 
+(* bytes_written() after each call of a session in which every call succeeds *)
+Fixpoint cum_lens (n : N) (calls : list (list (list N))) : list N :=
+  match calls with
+  | [] => []
+  | c :: r => (n + len (concat c))%N :: cum_lens (n + len (concat c))%N r
+  end.
+
+(* The chunking law, possibly restricted to well-formed checksum states (okS) and buffers (okB):
+   the model of the table-driven CRC obeys it for sums < 2^32 and byte buffers only. *)
+Record cond_law (crc_update : N -> list N -> N) (okS : N -> Prop) (okB : list N -> Prop) : Prop := {
+  cl_app : forall s a b, okS s -> okB a -> okB b -> crc_update (crc_update s a) b = crc_update s (a ++ b);
+  cl_nil : forall s, crc_update s [] = s;
+  cl_s0 : okS 0%N;
+  cl_step : forall s a, okS s -> okB a -> okS (crc_update s a);
+  cl_bnil : okB [];
+  cl_bapp : forall a b, okB a -> okB b -> okB (a ++ b);
+  cl_bfirstn : forall n a, okB a -> okB (firstn n a);
+  cl_bskipn : forall n a, okB a -> okB (skipn n a)
+}.
+
+Lemma uncond_law crc_update :
+  (forall s a b, crc_update (crc_update s a) b = crc_update s (a ++ b)) ->
+  (forall s, crc_update s [] = s) -> cond_law crc_update (fun _ => True) (fun _ => True).
+Proof. intros H1 H2. split; auto. Qed.
+
+Lemma okB_concat (okB : list N -> Prop) : okB [] -> (forall a b, okB a -> okB b -> okB (a ++ b)) ->
+  forall l, Forall okB l -> okB (concat l).
+Proof. intros H0 Ha l H. induction H; cbn; auto. Qed.
+
 Section CwSpec.
   Variable crc_update : N -> list N -> N.
   Variable masked : N -> N.
-  Hypothesis crc_app : forall s a b, crc_update (crc_update s a) b = crc_update s (a ++ b).
-  Hypothesis crc_nil : forall s, crc_update s [] = s.
+  Variable okS : N -> Prop.
+  Variable okB : list N -> Prop.
+  Hypothesis Hlaw : cond_law crc_update okS okB.
   Context {W : Type}.
   Variable wr : writer W.
   Variables acc phys : W -> list N.
@@ -438,7 +470,8 @@ Section CwSpec.
   Definition cacc (c : cw W) : list N := acc (c_inner c).
   (* the counter and the checksum describe exactly the bytes accepted since construction *)
   Definition cw_inv (a0 : list N) (c : cw W) : Prop :=
-    exists bytes, acc (c_inner c) = a0 ++ bytes /\ c_cnt c = len bytes /\ c_sum c = crc_update 0%N bytes.
+    exists bytes, acc (c_inner c) = a0 ++ bytes /\ c_cnt c = len bytes /\ c_sum c = crc_update 0%N bytes /\
+                  okB bytes.
 
   Lemma cw_write_sane : sane_write cww (cw_budget wr) cacc.
   Proof.
@@ -451,9 +484,9 @@ Section CwSpec.
     - inversion H; subst; clear H. cbn. auto.
   Qed.
 
-  Lemma cw_write_inv a0 c buf r c' : buf <> [] -> cw_inv a0 c -> cww c buf = (r, c') -> cw_inv a0 c'.
+  Lemma cw_write_inv a0 c buf r c' : buf <> [] -> okB buf -> cw_inv a0 c -> cww c buf = (r, c') -> cw_inv a0 c'.
   Proof.
-    intros Hne (bytes & Ha & Hc & Hs) H. unfold cw_write in H. cbv iota in H.
+    intros Hne Hokb (bytes & Ha & Hc & Hs & Hob) H. unfold cw_write in H. cbv iota in H.
     destruct (w_write wr (c_inner c) buf) as [r0 i'] eqn:E.
     apply (sw_write _ _ _ _ Hin) in E; auto. destruct E as [Hb Hsn].
     destruct r0 as [n|k| |]; try contradiction.
@@ -461,12 +494,13 @@ Section CwSpec.
       inversion H; subst; clear H. exists (bytes ++ firstn n buf). cbn. repeat split.
       + rewrite Ha', Ha, app_assoc. reflexivity.
       + rewrite Hc, len_app. unfold len. rewrite firstn_length. f_equal. f_equal. lia.
-      + rewrite Hs. apply crc_app.
+      + rewrite Hs. apply (cl_app _ _ _ Hlaw); auto; [apply (cl_s0 _ _ _ Hlaw)|apply (cl_bfirstn _ _ _ Hlaw); auto].
+      + apply (cl_bapp _ _ _ Hlaw); auto. apply (cl_bfirstn _ _ _ Hlaw); auto.
     - destruct Hsn as (Ha' & _). inversion H; subst; clear H. exists bytes. cbn. repeat split; auto.
       congruence.
   Qed.
 
-  Lemma cw_write_all_sane a0 c buf r c' : cw_inv a0 c -> cwa c buf = (r, c') ->
+  Lemma cw_write_all_sane a0 c buf r c' : okB buf -> cw_inv a0 c -> cwa c buf = (r, c') ->
     cw_inv a0 c' /\ cw_budget wr c' <= cw_budget wr c /\
     match r with
     | IoOk _ => cacc c' = cacc c ++ buf
@@ -474,16 +508,18 @@ Section CwSpec.
     | IoPanic | IoDiverge => False
     end.
   Proof.
-    intros Hi H. unfold cw_write_all, default_write_all in H.
+    intros Hokb Hi H. unfold cw_write_all, default_write_all in H.
     destruct (write_loop _ _ _ _) as [[r0 c0] rest] eqn:E. inversion H; subst; clear H.
     split.
-    - eapply (write_loop_inv cww (cw_inv a0)); eauto. intros; eapply cw_write_inv; eauto.
+    - eapply (write_loop_inv cww (cw_inv a0) okB); [| |exact Hokb|exact Hi|exact E].
+      + intros; apply (cl_bskipn _ _ _ Hlaw); auto.
+      + intros; eapply cw_write_inv; eauto.
     - apply (write_loop_sane _ _ _ cw_write_sane) in E; [|unfold loop_fuel; lia].
       destruct E as ((pre & Hp & Ha) & Hb & Hr). split; auto.
       destruct r; auto. subst rest. rewrite app_nil_r in Hp. now subst.
   Qed.
 
-  Lemma cw_chunks_sane a0 : forall chunks c r c', cw_inv a0 c -> cwc c chunks = (r, c') ->
+  Lemma cw_chunks_sane a0 : forall chunks c r c', Forall okB chunks -> cw_inv a0 c -> cwc c chunks = (r, c') ->
     cw_inv a0 c' /\ cw_budget wr c' <= cw_budget wr c /\
     match r with
     | IoOk _ => cacc c' = cacc c ++ concat chunks
@@ -491,9 +527,10 @@ Section CwSpec.
     | IoPanic | IoDiverge => False
     end.
   Proof.
-    induction chunks as [|ch chunks IH]; intros c r c' Hi H; cbn [cw_write_chunks] in H.
+    induction chunks as [|ch chunks IH]; intros c r c' Hoks Hi H; cbn [cw_write_chunks] in H.
     - inversion H; subst. cbn. rewrite app_nil_r. auto.
-    - destruct (cwa c ch) as [r0 c0] eqn:E. apply (cw_write_all_sane a0) in E; auto.
+    - inversion Hoks as [|? ? Hok1 Hok2]; subst.
+      destruct (cwa c ch) as [r0 c0] eqn:E. apply (cw_write_all_sane a0) in E; auto.
       destruct E as (Hi0 & Hb0 & Hr0).
       destruct r0 as [[]|k| |]; try contradiction.
       + apply IH in H; auto. destruct H as (Hi1 & Hb1 & Hr1). repeat split; auto; [lia|].
@@ -511,16 +548,27 @@ Section CwSpec.
     unfold mk_res, wa_of, bw_of; cbn. rewrite Hwacc, Ha, Hc. apply len_app.
   Qed.
 
-  Lemma run_calls_sane a0 : forall calls c rs c' alive, cw_inv a0 c -> rcalls c calls = (rs, c', alive) ->
+  Lemma cw_inv_cnt a0 c c0 x : cw_inv a0 c -> cw_inv a0 c0 -> cacc c0 = cacc c ++ x ->
+    c_cnt c0 = (c_cnt c + len x)%N.
+  Proof.
+    intros (b & Ha & Hc & _) (b0 & Ha0 & Hc0 & _) H. unfold cacc in H.
+    rewrite Ha0, Ha, <- app_assoc in H. apply app_inv_head in H. subst b0.
+    rewrite Hc0, Hc. apply len_app.
+  Qed.
+
+  Lemma run_calls_sane a0 : forall calls c rs c' alive, Forall (Forall okB) calls ->
+    cw_inv a0 c -> rcalls c calls = (rs, c', alive) ->
     cw_inv a0 c' /\ cw_budget wr c' <= cw_budget wr c /\ Forall (res_sane a0) rs /\
     (alive = true -> Forall (fun r => is_ok (st_of r)) rs /\ length rs = length calls /\
-                     cacc c' = cacc c ++ concat (concat calls)) /\
+                     cacc c' = cacc c ++ concat (concat calls) /\
+                     map bw_of rs = cum_lens (c_cnt c) calls) /\
     (alive = false -> exists rs0 r k, rs = rs0 ++ [r] /\ Forall (fun r => is_ok (st_of r)) rs0 /\
                                        st_of r = IoErr k /\ length rs <= length calls).
   Proof.
-    induction calls as [|ca calls IH]; intros c rs c' alive Hi H; cbn [run_calls] in H.
+    induction calls as [|ca calls IH]; intros c rs c' alive Hoks Hi H; cbn [run_calls] in H.
     - inversion H; subst. cbn. rewrite app_nil_r. repeat split; auto. discriminate.
-    - destruct (cwc c ca) as [r0 c0] eqn:E. apply (cw_chunks_sane a0) in E; auto.
+    - inversion Hoks as [|? ? Hok1 Hok2]; subst.
+      destruct (cwc c ca) as [r0 c0] eqn:E. apply (cw_chunks_sane a0) in E; auto.
       destruct E as (Hi0 & Hb0 & Hr0).
       destruct r0 as [[]|k| |]; try contradiction.
       + destruct (rcalls c0 calls) as [[rs1 c1] al1] eqn:E1. inversion H; subst; clear H.
@@ -528,10 +576,12 @@ Section CwSpec.
         split; [exact Hi1|]. split; [lia|]. split.
         { constructor; auto. apply mk_res_sane; cbn; auto. }
         split.
-        * intros Hal. destruct (Ht Hal) as (A & B & C). repeat split.
+        * intros Hal. destruct (Ht Hal) as (A & B & C & D). repeat split.
           -- constructor; auto. reflexivity.
           -- cbn. lia.
           -- cbn [concat]. rewrite concat_app, C, Hr0, app_assoc. reflexivity.
+          -- cbn [map cum_lens]. rewrite D. unfold bw_of, mk_res. cbn [fst snd].
+             rewrite (cw_inv_cnt a0 c c0 (concat ca) Hi Hi0 Hr0). reflexivity.
         * intros Hal. destruct (Hfa Hal) as (rs0 & r & k & A & B & C & D).
           exists (mk_res wcalls wacc (IoOk tt) c0 :: rs0), r, k. subst rs1. repeat split; auto.
           -- constructor; auto. reflexivity.
@@ -543,16 +593,16 @@ Section CwSpec.
   Qed.
 
   (* into_inner under any script: Ok means everything was accepted and flushed *)
-  Lemma run_finish_sane a0 c fin r c' : cw_inv a0 c -> rfin c fin = (r, c') ->
+  Lemma run_finish_sane a0 c fin r c' : Forall okB fin -> cw_inv a0 c -> rfin c fin = (r, c') ->
     ok_or_err r /\
     (r = IoOk tt ->
        exists bytes, acc (c_inner c) ++ concat fin = a0 ++ bytes /\
                      phys (c_inner c') = a0 ++ bytes ++ le32 (masked (crc_update 0%N bytes)) /\
                      c_cnt c' = len bytes /\ flushed (c_inner c')).
   Proof.
-    intros Hi H. unfold run_finish in H.
+    intros Hokf Hi H. unfold run_finish in H.
     destruct (cwc c fin) as [r0 c0] eqn:E. apply (cw_chunks_sane a0) in E; auto.
-    destruct E as ((bytes & Ha & Hc & Hs) & Hb0 & Hr0).
+    destruct E as ((bytes & Ha & Hc & Hs & _) & Hb0 & Hr0).
     destruct r0 as [[]|k| |]; try contradiction.
     - destruct (w_write_all wr (c_inner c0) _) as [r1 i1] eqn:E1.
       apply (sw_write_all _ _ _ _ Hin) in E1; [|discriminate]. destruct E1 as (Hb1 & Hr1).
@@ -612,10 +662,12 @@ Section CwSpec.
   Notation rsess := (run_session crc_update masked wr false wcalls wacc).
 
   Lemma cw_inv_init st0 : cw_inv (acc st0) (mkCw st0 0%N 0%N).
-  Proof. exists []. cbn. rewrite app_nil_r, crc_nil. auto. Qed.
+  Proof.
+    exists []. cbn. rewrite app_nil_r, (cl_nil _ _ _ Hlaw). repeat split; auto. apply (cl_bnil _ _ _ Hlaw).
+  Qed.
 
   (* any script: no panic, at most the last call fails, and a finished build is complete *)
-  Theorem session_sane st0 calls fin :
+  Theorem session_sane st0 calls fin : Forall (Forall okB) calls -> Forall okB fin ->
     let o := rsess st0 calls fin in
     let bytes := concat (concat calls) ++ concat fin in
     Forall (res_sane (acc st0)) (o_calls o) /\
@@ -627,15 +679,16 @@ Section CwSpec.
       ok_or_err (st_of rf) /\
       (st_of rf = IoOk tt ->
          phys (o_final o) = acc st0 ++ bytes ++ le32 (masked (crc_update 0%N bytes)) /\
-         bw_of rf = len bytes /\ flushed (o_final o))
+         bw_of rf = len bytes /\ flushed (o_final o) /\
+         map bw_of (o_calls o) = cum_lens 0%N calls)
     end.
   Proof.
-    cbv zeta. unfold run_session.
+    intros Hokc Hokf. cbv zeta. unfold run_session.
     destruct (rcalls _ calls) as [[rs c] alive] eqn:E.
-    apply (run_calls_sane (acc st0)) in E; [|apply cw_inv_init].
+    apply (run_calls_sane (acc st0)) in E; [|exact Hokc|apply cw_inv_init].
     destruct E as (Hi & _ & Hf & Ht & Hfa).
     destruct alive.
-    - destruct (Ht eq_refl) as (A & B & C).
+    - destruct (Ht eq_refl) as (A & B & C & D).
       destruct (rfin c fin) as [r c'] eqn:E2. cbn.
       apply (run_finish_sane (acc st0)) in E2; auto. destruct E2 as [Hok Hc].
       split; [exact Hf|]. split; [exact A|]. split; [exact B|]. split; [exact Hok|].
@@ -647,15 +700,15 @@ Section CwSpec.
   Qed.
 
   (* the counter after any sequence of API calls, under any script *)
-  Theorem calls_count st0 calls :
+  Theorem calls_count st0 calls : Forall (Forall okB) calls ->
     let '(rs, c, _) := rcalls (mkCw st0 0%N 0%N) calls in
     (exists bytes, acc (c_inner c) = acc st0 ++ bytes /\ c_cnt c = len bytes /\
                    c_sum c = crc_update 0%N bytes) /\
     Forall (fun r => ok_or_err (st_of r) /\ N.of_nat (wa_of r) = (len (acc st0) + bw_of r)%N) rs.
   Proof.
-    destruct (rcalls _ calls) as [[rs c] alive] eqn:E.
-    apply (run_calls_sane (acc st0)) in E; [|apply cw_inv_init].
-    destruct E as (Hi & _ & Hf & _). split; auto.
+    intros Hokc. destruct (rcalls _ calls) as [[rs c] alive] eqn:E.
+    apply (run_calls_sane (acc st0)) in E; [|exact Hokc|apply cw_inv_init].
+    destruct E as ((bytes & H1 & H2 & H3 & _) & _ & Hf & _). split; eauto.
   Qed.
 
   Hypothesis Hgood : good_writer wr good.
@@ -670,20 +723,20 @@ Section CwSpec.
   Qed.
 
   (* benign script: every call succeeds and the sink ends up with the in-memory bytes *)
-  Theorem session_good st0 calls fin : good st0 ->
+  Theorem session_good st0 calls fin : Forall (Forall okB) calls -> Forall okB fin -> good st0 ->
     let o := rsess st0 calls fin in
     let bytes := concat (concat calls) ++ concat fin in
     Forall (fun r => is_ok (st_of r)) (o_calls o) /\ length (o_calls o) = length calls /\
     (exists rf, o_fin o = Some rf /\ st_of rf = IoOk tt /\ bw_of rf = len bytes) /\
     phys (o_final o) = acc st0 ++ bytes ++ le32 (masked (crc_update 0%N bytes)) /\
-    flushed (o_final o).
+    flushed (o_final o) /\ map bw_of (o_calls o) = cum_lens 0%N calls.
   Proof.
-    intros Hg. pose proof (session_sane st0 calls fin) as Hs. cbv zeta in *.
+    intros Hokc Hokf Hg. pose proof (session_sane st0 calls fin Hokc Hokf) as Hs. cbv zeta in *.
     unfold run_session in *.
     destruct (run_calls_good calls (mkCw st0 0%N 0%N) Hg) as (rs & c & E & Hg').
     rewrite E in *.
     destruct (run_finish_good c fin Hg') as (c' & E2). rewrite E2 in *. cbn in *.
-    destruct Hs as (_ & A & B & _ & C). destruct (C eq_refl) as (C1 & C2 & C3).
+    destruct Hs as (_ & A & B & _ & C). destruct (C eq_refl) as (C1 & C2 & C3 & C4).
     repeat split; auto. eexists. split; [reflexivity|]. split; auto.
   Qed.
 End CwSpec.
@@ -848,13 +901,14 @@ Proof. intros H. split; auto. Qed.
 Section Stacks.
   Variable crc_update : N -> list N -> N.
   Variable masked : N -> N.
-  Hypothesis crc_app : forall s a b, crc_update (crc_update s a) b = crc_update s (a ++ b).
-  Hypothesis crc_nil : forall s, crc_update s [] = s.
+  Variable okS : N -> Prop.
+  Variable okB : list N -> Prop.
+  Hypothesis Hlaw : cond_law crc_update okS okB.
 
-  Definition all_bytes (calls : list (list (list N))) (fin : list (list N)) : list N :=
+  Definition sess_bytes (calls : list (list (list N))) (fin : list (list N)) : list N :=
     concat (concat calls) ++ concat fin.
   Definition file_bytes (calls : list (list (list N))) (fin : list (list N)) : list N :=
-    all_bytes calls fin ++ le32 (masked (crc_update 0%N (all_bytes calls fin))).
+    sess_bytes calls fin ++ le32 (masked (crc_update 0%N (sess_bytes calls fin))).
 
   (* write_all (the default loop) on the scripted sink: any fuel >= len buf + len oracle + 1
      is enough, because every iteration takes at least one byte or consumes one response, and an
@@ -885,20 +939,22 @@ Section Stacks.
   Notation sink_sess := (run_sink_session crc_update masked false).
 
   Theorem sink_session_good oracle prefill calls fin :
-    Forall benign oracle ->
+    Forall (Forall okB) calls -> Forall okB fin -> Forall benign oracle ->
     let o := sink_sess oracle FlushOk prefill calls fin in
     Forall (fun r => st_of r = IoOk tt) (o_calls o) /\ length (o_calls o) = length calls /\
-    (exists rf, o_fin o = Some rf /\ st_of rf = IoOk tt /\ bw_of rf = len (all_bytes calls fin)) /\
-    s_data (o_final o) = prefill ++ file_bytes calls fin /\ sink_flushed (o_final o).
+    (exists rf, o_fin o = Some rf /\ st_of rf = IoOk tt /\ bw_of rf = len (sess_bytes calls fin)) /\
+    s_data (o_final o) = prefill ++ file_bytes calls fin /\ sink_flushed (o_final o) /\
+    map bw_of (o_calls o) = cum_lens 0%N calls.
   Proof.
-    intros Hb.
-    exact (session_good crc_update masked crc_app crc_nil sink_writer s_data s_data sink_flushed
+    intros Hokc Hokf Hb.
+    exact (session_good crc_update masked okS okB Hlaw sink_writer s_data s_data sink_flushed
              sink_sane s_calls (fun s => length (s_data s)) (fun _ => eq_refl)
              (sink_good FlushOk) (sink_write_good FlushOk) sink_good_writer
-             (new_sink oracle FlushOk prefill) calls fin (new_sink_good _ _ _ Hb)).
+             (new_sink oracle FlushOk prefill) calls fin Hokc Hokf (new_sink_good _ _ _ Hb)).
   Qed.
 
   Theorem sink_session_sane oracle fl prefill calls fin :
+    Forall (Forall okB) calls -> Forall okB fin ->
     let o := sink_sess oracle fl prefill calls fin in
     Forall (res_sane prefill) (o_calls o) /\
     match o_fin o with
@@ -909,62 +965,63 @@ Section Stacks.
       ok_or_err (st_of rf) /\
       (st_of rf = IoOk tt ->
          s_data (o_final o) = prefill ++ file_bytes calls fin /\
-         bw_of rf = len (all_bytes calls fin) /\ sink_flushed (o_final o))
+         bw_of rf = len (sess_bytes calls fin) /\ sink_flushed (o_final o) /\
+         map bw_of (o_calls o) = cum_lens 0%N calls)
     end.
   Proof.
-    exact (session_sane crc_update masked crc_app crc_nil sink_writer s_data s_data sink_flushed
+    exact (session_sane crc_update masked okS okB Hlaw sink_writer s_data s_data sink_flushed
              sink_sane s_calls (fun s => length (s_data s)) (fun _ => eq_refl)
              (new_sink oracle fl prefill) calls fin).
   Qed.
 
-  Theorem sink_calls_count oracle fl prefill calls :
+  Theorem sink_calls_count oracle fl prefill calls : Forall (Forall okB) calls ->
     let '(rs, c, _) := run_calls crc_update sink_writer false s_calls (fun s => length (s_data s))
                                  (mkCw (new_sink oracle fl prefill) 0%N 0%N) calls in
     (exists bytes, s_data (c_inner c) = prefill ++ bytes /\ c_cnt c = len bytes /\
                    c_sum c = crc_update 0%N bytes) /\
     Forall (fun r => ok_or_err (st_of r) /\ N.of_nat (wa_of r) = (len prefill + bw_of r)%N) rs.
   Proof.
-    exact (calls_count crc_update crc_app crc_nil sink_writer s_data s_data sink_flushed
+    exact (calls_count crc_update okS okB Hlaw sink_writer s_data s_data sink_flushed
              sink_sane s_calls (fun s => length (s_data s)) (fun _ => eq_refl)
              (new_sink oracle fl prefill) calls).
   Qed.
 
   (* benign script, failing flush: everything is accepted, into_inner returns the flush error *)
   Theorem sink_session_flush oracle fl prefill calls fin :
-    Forall benign oracle ->
+    Forall (Forall okB) calls -> Forall okB fin -> Forall benign oracle ->
     let o := sink_sess oracle fl prefill calls fin in
     Forall (fun r => st_of r = IoOk tt) (o_calls o) /\ length (o_calls o) = length calls /\
     (exists rf, o_fin o = Some rf /\ st_of rf = flush_status fl) /\
     s_data (o_final o) = prefill ++ file_bytes calls fin.
   Proof.
-    intros Hb. cbv zeta.
-    pose proof (sink_session_sane oracle fl prefill calls fin) as Hs. cbv zeta in Hs.
+    intros Hokc Hokf Hb. cbv zeta.
+    pose proof (sink_session_sane oracle fl prefill calls fin Hokc Hokf) as Hs. cbv zeta in Hs.
     unfold run_sink_session, run_session in *.
     pose proof (new_sink_good oracle fl prefill Hb) as Hg.
     destruct (run_calls_good crc_update sink_writer s_data s_data sink_flushed sink_sane s_calls
                 (fun s => length (s_data s)) (sink_good fl) (sink_write_good fl) calls
                 (mkCw (new_sink oracle fl prefill) 0%N 0%N) Hg) as (rs & c & E & Hg').
     rewrite E in *.
-    pose proof (calls_count crc_update crc_app crc_nil sink_writer s_data s_data sink_flushed
+    pose proof (calls_count crc_update okS okB Hlaw sink_writer s_data s_data sink_flushed
              sink_sane s_calls (fun s => length (s_data s)) (fun _ => eq_refl)
-             (new_sink oracle fl prefill) calls) as Hcnt. rewrite E in Hcnt.
-    pose proof (run_calls_sane crc_update crc_app sink_writer s_data s_data sink_flushed sink_sane
-                  s_calls (fun s => length (s_data s)) (fun _ => eq_refl) prefill calls _ _ _ _
-                  (cw_inv_init crc_update crc_nil s_data (new_sink oracle fl prefill)) E)
+             (new_sink oracle fl prefill) calls Hokc) as Hcnt. rewrite E in Hcnt.
+    pose proof (run_calls_sane crc_update okS okB Hlaw sink_writer s_data s_data sink_flushed sink_sane
+                  s_calls (fun s => length (s_data s)) (fun _ => eq_refl) prefill calls _ _ _ _ Hokc
+                  (cw_inv_init crc_update okS okB Hlaw s_data (new_sink oracle fl prefill)) E)
       as (Hi & _ & _ & Ht & _).
-    destruct (Ht eq_refl) as (_ & _ & Hacc). unfold cacc in Hacc; cbn in Hacc.
+    destruct (Ht eq_refl) as (_ & _ & Hacc & _). unfold cacc in Hacc; cbn in Hacc.
     unfold run_finish in *.
     destruct (cw_chunks_good crc_update sink_writer s_data s_data sink_flushed sink_sane
                 (sink_good fl) (sink_write_good fl) fin c Hg') as (c0 & E0 & Hg0).
-    pose proof (cw_chunks_sane crc_update crc_app sink_writer s_data s_data sink_flushed sink_sane
-                  prefill fin c _ _ Hi E0) as ((bytes & Hb1 & Hb2 & Hb3) & _ & Hacc0).
+    pose proof (cw_chunks_sane crc_update okS okB Hlaw sink_writer s_data s_data sink_flushed sink_sane
+                  prefill fin c _ _ Hokf Hi E0) as ((bytes & Hb1 & Hb2 & Hb3 & _) & _ & Hacc0).
     unfold cacc in Hacc0.
     rewrite E0 in *. cbn [w_write_all sink_writer w_flush] in *.
     destruct (sink_write_all_good fl (c_inner c0) (le32 (masked (c_sum c0))) Hg0) as (s1 & E1 & [_ Hfl1] & Hd1).
     rewrite E1 in *. unfold sink_flush in *. rewrite Hfl1 in *.
     assert (Hdata : s_data s1 = prefill ++ file_bytes calls fin).
     { rewrite Hd1, Hb3. rewrite Hacc0, Hacc in Hb1. rewrite <- app_assoc in Hb1.
-      apply app_inv_head in Hb1. subst bytes. rewrite Hacc0, Hacc. unfold file_bytes, all_bytes.
+      apply app_inv_head in Hb1. subst bytes. rewrite Hacc0, Hacc. unfold file_bytes, sess_bytes.
       rewrite <- !app_assoc. reflexivity. }
     destruct fl; cbn in *; destruct Hs as (_ & A & B & _); repeat split; auto; eexists; split; reflexivity.
   Qed.
@@ -977,27 +1034,29 @@ Section Stacks.
   Proof. intros b. unfold bacc. now rewrite app_length. Qed.
 
   Theorem buf_session_good cap oracle prefill calls fin :
-    Forall benign oracle ->
+    Forall (Forall okB) calls -> Forall okB fin -> Forall benign oracle ->
     let o := buf_sess cap oracle FlushOk prefill calls fin in
     Forall (fun r => st_of r = IoOk tt) (o_calls o) /\ length (o_calls o) = length calls /\
-    (exists rf, o_fin o = Some rf /\ st_of rf = IoOk tt /\ bw_of rf = len (all_bytes calls fin)) /\
+    (exists rf, o_fin o = Some rf /\ st_of rf = IoOk tt /\ bw_of rf = len (sess_bytes calls fin)) /\
     s_data (b_inner (o_final o)) = prefill ++ file_bytes calls fin /\
-    b_buf (o_final o) = [] /\ sink_flushed (b_inner (o_final o)).
+    b_buf (o_final o) = [] /\ sink_flushed (b_inner (o_final o)) /\
+    map bw_of (o_calls o) = cum_lens 0%N calls.
   Proof.
-    intros Hb.
-    pose proof (session_good crc_update masked crc_app crc_nil (bufw_writer sink_writer)
+    intros Hokc Hokf Hb.
+    pose proof (session_good crc_update masked okS okB Hlaw (bufw_writer sink_writer)
              (bacc s_data) (bphys s_data) (bflushed sink_flushed)
              (bufw_sane sink_writer s_data s_data sink_flushed sink_sane)
              (fun b => s_calls (b_inner b)) bw_wa bw_wa_ok
              (bgood (sink_good FlushOk))
              (gw_write _ _ (bufw_good sink_writer s_data s_data sink_flushed sink_sane _ sink_good_writer))
              (bufw_good sink_writer s_data s_data sink_flushed sink_sane _ sink_good_writer)
-             (mkBuf (new_sink oracle FlushOk prefill) [] cap) calls fin (new_sink_good _ _ _ Hb)) as H.
+             (mkBuf (new_sink oracle FlushOk prefill) [] cap) calls fin Hokc Hokf (new_sink_good _ _ _ Hb)) as H.
     cbv zeta in *. unfold bacc, bphys, bflushed in H. cbn [b_inner b_buf new_sink s_data] in H.
-    rewrite app_nil_r in H. destruct H as (A & B & C & D & E & F). repeat split; auto.
+    rewrite app_nil_r in H. destruct H as (A & B & C & D & (E & F) & G). repeat split; auto.
   Qed.
 
   Theorem buf_session_sane cap oracle fl prefill calls fin :
+    Forall (Forall okB) calls -> Forall okB fin ->
     let o := buf_sess cap oracle fl prefill calls fin in
     Forall (res_sane prefill) (o_calls o) /\
     match o_fin o with
@@ -1008,20 +1067,22 @@ Section Stacks.
       ok_or_err (st_of rf) /\
       (st_of rf = IoOk tt ->
          s_data (b_inner (o_final o)) = prefill ++ file_bytes calls fin /\
-         bw_of rf = len (all_bytes calls fin) /\
-         sink_flushed (b_inner (o_final o)) /\ b_buf (o_final o) = [])
+         bw_of rf = len (sess_bytes calls fin) /\
+         (sink_flushed (b_inner (o_final o)) /\ b_buf (o_final o) = []) /\
+         map bw_of (o_calls o) = cum_lens 0%N calls)
     end.
   Proof.
-    pose proof (session_sane crc_update masked crc_app crc_nil (bufw_writer sink_writer)
+    intros Hokc Hokf.
+    pose proof (session_sane crc_update masked okS okB Hlaw (bufw_writer sink_writer)
              (bacc s_data) (bphys s_data) (bflushed sink_flushed)
              (bufw_sane sink_writer s_data s_data sink_flushed sink_sane)
              (fun b => s_calls (b_inner b)) bw_wa bw_wa_ok
-             (mkBuf (new_sink oracle fl prefill) [] cap) calls fin) as H.
+             (mkBuf (new_sink oracle fl prefill) [] cap) calls fin Hokc Hokf) as H.
     cbv zeta in *. unfold bacc, bphys, bflushed in H. cbn [b_inner b_buf new_sink s_data] in H.
     rewrite app_nil_r in H. exact H.
   Qed.
 
-  Theorem buf_calls_count cap oracle fl prefill calls :
+  Theorem buf_calls_count cap oracle fl prefill calls : Forall (Forall okB) calls ->
     let '(rs, c, _) := run_calls crc_update (bufw_writer sink_writer) false
                                  (fun b => s_calls (b_inner b)) bw_wa
                                  (mkCw (mkBuf (new_sink oracle fl prefill) [] cap) 0%N 0%N) calls in
@@ -1029,11 +1090,12 @@ Section Stacks.
                    c_cnt c = len bytes /\ c_sum c = crc_update 0%N bytes) /\
     Forall (fun r => ok_or_err (st_of r) /\ N.of_nat (wa_of r) = (len prefill + bw_of r)%N) rs.
   Proof.
-    pose proof (calls_count crc_update crc_app crc_nil (bufw_writer sink_writer)
+    intros Hokc.
+    pose proof (calls_count crc_update okS okB Hlaw (bufw_writer sink_writer)
              (bacc s_data) (bphys s_data) (bflushed sink_flushed)
              (bufw_sane sink_writer s_data s_data sink_flushed sink_sane)
              (fun b => s_calls (b_inner b)) bw_wa bw_wa_ok
-             (mkBuf (new_sink oracle fl prefill) [] cap) calls) as H.
+             (mkBuf (new_sink oracle fl prefill) [] cap) calls Hokc) as H.
     unfold bacc in H. cbn [b_inner b_buf new_sink s_data] in H. rewrite app_nil_r in H. exact H.
   Qed.
 End Stacks.
@@ -1065,3 +1127,9 @@ Lemma old_behaviour_interrupted :
   let m := mem_session standin_update standin_masked old_witness_calls [] in
   s_data (o_final o_old) <> s_data (o_final m) /\ o_cnt o_old = 3%N.
 Proof. vm_compute. repeat split; discriminate. Qed.
+
+(* helpers for instantiating the restricted law with no restriction *)
+Lemma forall_true {A} (l : list A) : Forall (fun _ => True) l.
+Proof. induction l; constructor; auto. Qed.
+Lemma forall_forall_true {A} (l : list (list A)) : Forall (Forall (fun _ => True)) l.
+Proof. induction l; constructor; auto using forall_true. Qed.
